@@ -22,6 +22,40 @@ func tmpRoot() string {
 	return "/dev/shm"
 }
 
+// OnBusyLoop is called by the watchdog with the result of a run in which a task of the library spins for ever; it has
+// to write the result and end the process (the spinning goroutine cannot be stopped).
+var OnBusyLoop func(*core.Result)
+
+type spin struct{ gid, fn, stack string }
+
+// spinning finds a goroutine of the current bubble that is running or runnable inside the library.
+func spinning() spin {
+	buf := make([]byte, 4<<20)
+	buf = buf[:runtime.Stack(buf, true)]
+	for _, g := range strings.Split(string(buf), "\n\n") {
+		lines := strings.Split(g, "\n")
+		if len(lines) < 2 || !strings.Contains(lines[0], "synctest bubble") {
+			continue
+		}
+		if !strings.Contains(lines[0], "[running") && !strings.Contains(lines[0], "[runnable") {
+			continue
+		}
+		for _, l := range lines[1:] {
+			if strings.HasPrefix(l, "github.com/blevesearch/") || strings.HasPrefix(l, "github.com/couchbase/") {
+				fn := l
+				if i := strings.LastIndex(fn, "("); i > 0 {
+					fn = fn[:i]
+				}
+				if len(lines) > 24 {
+					lines = lines[:24]
+				}
+				return spin{gid: strings.Fields(lines[0])[1], fn: fn, stack: strings.Join(lines, "\n")}
+			}
+		}
+	}
+	return spin{}
+}
+
 // RunSpec executes one simulated run in its own synctest bubble.
 func RunSpec(t *testing.T, spec core.Spec, keepLog bool) *core.Result {
 	res := &core.Result{Spec: spec}
@@ -50,13 +84,49 @@ func RunSpec(t *testing.T, spec core.Spec, keepLog bool) *core.Result {
 	done := make(chan struct{})
 	go func() { // wall-clock watchdog, outside the bubble
 		limit := 180 * time.Second
-		select {
-		case <-done:
-		case <-time.After(limit):
-			buf := make([]byte, 4<<20)
-			buf = buf[:runtime.Stack(buf, true)]
-			fmt.Fprintf(os.Stderr, "bsim: WATCHDOG: run property=%s seed=%d exceeded %v wall clock\n%s\n", spec.Property, spec.Seed, limit, buf)
-			os.Exit(3)
+		// a task of the code under test that spins without ever reaching a yield point (an endless loop) keeps the
+		// whole bubble from settling. Two stack samples 30 s apart that show the same goroutine running in the same
+		// function of the library, with no scheduling step in between, are reported as what they are: a call that
+		// does not return (C11: no deadlocks, calls complete). Anything else that exceeds the limit is trouble of
+		// the machinery and exits 3.
+		report := func(a, b spin, progress int64) {
+			if a.gid != "" && a.gid == b.gid && a.fn == b.fn && sched.Progress.Load() == progress && OnBusyLoop != nil {
+				res.Violations = append(res.Violations, core.Violation{Property: "C11", Clause: "call-never-returns", Sig: map[string]string{"in": b.fn},
+					Detail: fmt.Sprintf("a task has been running inside %s for tens of seconds of wall-clock time without reaching a synchronisation point and without any scheduling step (run of property %s): an endless loop\n%s", b.fn, spec.Property, b.stack)})
+				res.Spec.Tape = tape.Rec
+				res.WallMS = time.Since(t0).Milliseconds()
+				_ = os.RemoveAll(dir)
+				OnBusyLoop(res)
+			}
+		}
+		var first spin
+		var progress int64
+		var ms runtime.MemStats
+		for tick := 1; ; tick++ {
+			select {
+			case <-done:
+				return
+			case <-time.After(5 * time.Second):
+			}
+			runtime.ReadMemStats(&ms)
+			if ms.HeapAlloc > 8<<30 { // an endless loop that allocates: decide now, before the machine suffers
+				a, p := spinning(), sched.Progress.Load()
+				time.Sleep(3 * time.Second)
+				report(a, spinning(), p)
+				fmt.Fprintf(os.Stderr, "bsim: WATCHDOG: run property=%s seed=%d holds %d MiB of heap\n", spec.Property, spec.Seed, ms.HeapAlloc>>20)
+				os.Exit(3)
+			}
+			switch tick {
+			case 12: // 60 s
+				first, progress = spinning(), sched.Progress.Load()
+			case 18: // 90 s
+				report(first, spinning(), progress)
+			case 36: // 180 s
+				buf := make([]byte, 4<<20)
+				buf = buf[:runtime.Stack(buf, true)]
+				fmt.Fprintf(os.Stderr, "bsim: WATCHDOG: run property=%s seed=%d exceeded %v wall clock\n%s\n", spec.Property, spec.Seed, limit, buf)
+				os.Exit(3)
+			}
 		}
 	}()
 	func() {
